@@ -19,6 +19,7 @@ rules of `reorganizeChain`.  Events (`Ev`): block delivery, verification message
    `c13_valid_accepted_full` is refuted by the F32 witness.
 -/
 import BytomModel.Lemmas.C13Witness
+import BytomModel.Lemmas.C13DoubleSpend
 
 namespace BytomModel.Props.C13
 open BytomModel.Node BytomModel.Ledger BytomModel.NodeLedger BytomModel.Lemmas.C13
@@ -143,6 +144,21 @@ theorem spend_of_locked_vote_refused {p : Params} {h : Nat} {first : Bool} {pre 
   apply applyBlockTxs_bad_input hpre hins hip
   rintro ⟨e', he, _, _, hc⟩
   rw [hg] at he; injection he with he; subst he; exact hc ⟨ht, hy⟩
+
+/-- in-block double spend, one transaction: an output listed twice among the inputs of a
+    transaction is refused on EVERY view (the first spend marks it, the second is refused) -/
+theorem inblock_double_spend_same_tx_refused {p : Params} {h : Nat} (a b c : List Nat) (o : Nat) (v : View) :
+    applySpend p h (a ++ o :: b ++ o :: c) v = none :=
+  same_tx_double_spend a b c o v
+
+/-- in-block double spend, two transactions: a block in which two transactions spend the same
+    output, with no transaction from the first up to the second creating an output of that id
+    (ids are hashes: never, in the real system), fails `applyBlockTxs` on EVERY view -/
+theorem inblock_double_spend_refused {p : Params} {h : Nat} {first : Bool} (pre mid suf : List Tx) (t1 t2 : Tx)
+    (o : Nat) (v : View) (h1 : o ∈ t1.ins) (h2 : o ∈ t2.ins)
+    (hne : ∀ t, t ∈ t1 :: mid → ∀ x, x ∈ t.outs → x.id ≠ o) :
+    applyBlockTxs p h first (pre ++ t1 :: mid ++ t2 :: suf) v = none :=
+  cross_tx_double_spend pre mid suf t1 t2 o v h1 h2 hne
 
 /-- a reorganisation whose attach list contains a block that fails `applyBlockTxs` (whatever the
     blocks before it left) is refused: best block, index, utxo set stay -/
@@ -335,6 +351,15 @@ example :
     (s.node.saveBlock Witness.b4).1.bestChain = 4 ∧
     applyBlockTxs s.params 4 true (s.txsOf 4) (loadSpent s.utxo (s.txsOf 4) []) = none := by
   decide +kernel
+
+/-- `inblock_double_spend_refused`: two transactions spending o7 (shape of the generator's
+    double-spend-inblock mutant) -/
+example : applyBlockTxs {} 17 true
+    ([{ id := 22, ins := [], outs := [{ id := 23, kind := .normal, amount := 0 }] }] ++
+      { id := 20, ins := [7], outs := [{ id := 21, kind := .normal, amount := 5 }] } :: [] ++
+      { id := 21, ins := [7], outs := [{ id := 22, kind := .normal, amount := 4 }] } :: [])
+    [(7, { typ := 1, height := 4, spent := false })] = none :=
+  inblock_double_spend_refused _ _ _ _ _ 7 _ (by decide) (by decide) (by decide)
 
 /-- a `Moved` step exists: delivering b1 to the genesis state moves the best block -/
 example : (step Witness.init (.deliver Witness.b1)).node.best ≠ Witness.init.node.best := by
